@@ -246,6 +246,9 @@ static void build_rb(void)
 	build_shape(RB_N);
 #endif
 	ASSUME(IN.wc <= NN && IN.rc <= NN);
+#ifdef RB_NOCURSOR
+	ASSUME(IN.wc == 0 && IN.rc == 0 && IN.rcn == 0);
+#endif
 	BP->wcursor = IN.wc ? ND[IN.wc - 1] : 0;
 	BP->rcursor = IN.rc ? ND[IN.rc - 1] : 0;
 	ASSUME(IN.rcn <= NN);
